@@ -37,7 +37,7 @@ REAL_K1 = (
 )
 
 K1_OPS = ('consume', 'line', 'part', 'space')
-K1_N_NOTE = ('counts n > (longest text) + 2: every count greater than the remaining length takes the same first-line guard of '
+K1_N_NOTE = ('counts n > (longest text) + 1: every count greater than the remaining length takes the same first-line guard of '
              'consume / consume_part_of_current_line; the guard formats n into the ValueError message, which makes an '
              'unbounded symbolic n enumerate, so n is bounded')
 K1_ALPHABET = 'a \n'
@@ -50,9 +50,15 @@ def _in_alphabet(s: str, alphabet: str) -> bool:
     return True
 
 
-def _pre_k1(s: str, n1: int, n2: int) -> bool:
+def _pre_k1(t: str, n1: int, n2: int) -> bool:
     c = ob.case()
-    if len(s) > c['maxlen'] or not _in_alphabet(s, K1_ALPHABET):
+    tl = c['maxlen'] - len(c.get('prefix', ''))
+    if c.get('exact'):
+        if len(t) != tl:
+            return False
+    elif len(t) > tl:
+        return False
+    if not _in_alphabet(t, K1_ALPHABET):
         return False
     ops = c['ops']
     ns = (n1, n2)
@@ -60,7 +66,7 @@ def _pre_k1(s: str, n1: int, n2: int) -> bool:
         takes_n = i < len(ops) and ops[i] in ('consume', 'part')
         if takes_n:
             # upper bound: see K1_N_NOTE
-            if ns[i] < 0 or ns[i] > c['maxlen'] + 2:
+            if ns[i] < 0 or ns[i] > c['maxlen'] + 1:
                 return False
         elif ns[i] != 0:
             return False
@@ -109,13 +115,14 @@ def _k1_apply(op: str, n: int, ps, m):
     return True, rok, mok
 
 
-def k1_parse_source(s: str, n1: int, n2: int) -> bool:
+def k1_parse_source(t: str, n1: int, n2: int) -> bool:
     """
-    pre: _pre_k1(s, n1, n2)
+    pre: _pre_k1(t, n1, n2)
     post: _
     """
     from exactly_lib.section_document.parse_source import ParseSource
     c = ob.case()
+    s = c.get('prefix', '') + t
     bug = bool(c.get('oracle_bug'))
     ps = ParseSource(s)
     m = ref.PosModel(s)
@@ -150,23 +157,41 @@ def _k1_obligations(tier: str) -> List[Ob]:
     len1, len2 = (4, 3) if tier == 'quick' else (5, 4)
     obs = []
     seqs = [((a,), len1) for a in K1_OPS] + [(ops, len2) for ops in itertools.product(K1_OPS, repeat=2)]
-    for ops, maxlen in seqs:
+    seqs += [(('copy',) + ops, len2) for ops in (('line', 'consume'), ('consume', 'line'))]
+
+    def add(name, ops, maxlen, **extra):
+        via_copy = ops[0] == 'copy'
+        if via_copy:
+            ops = ops[1:]
+        case = dict(ops=ops, maxlen=maxlen, via_copy=via_copy)
+        case.update(extra)
+        prefix = extra.get('prefix', '')
+        which = ('every text of exactly %d characters that begins with %r' % (maxlen, prefix) if extra.get('exact')
+                 else 'every text of <= %d characters' % maxlen)
         obs.append(Ob(
-            name='K1:' + '+'.join(ops), fn='k1_parse_source', case=dict(ops=ops, maxlen=maxlen), kernel='K1',
-            bound='every text of <= %d characters over {a, space, newline}; operations %s with every count 0 <= n <= %d; '
-                  'all observers compared after every operation' % (maxlen, ' then '.join(ops), maxlen + 2),
-            timeout=300 if tier == 'quick' else 3000, real=REAL_K1,
+            name=name, fn='k1_parse_source', case=case, kernel='K1',
+            bound='%s over {a, space, newline}; operations %s%s with every count 0 <= n <= %d; all observers '
+                  '(has_current_line, is_at_eof, remaining_source, current_line_number, current_line_text, column_index, '
+                  'remaining_part_of_current_line, is_at_eol, current_line) compared with the position model after every '
+                  'operation' % (which, ' then '.join(ops),
+                                 ' on ParseSource.copy (original unchanged), then catch_up_with' if via_copy else '',
+                                 maxlen + 1),
+            timeout=600 if tier == 'quick' else 2400, real=REAL_K1,
             outside=('negative counts (no documented meaning)', K1_N_NOTE,
                      'consume_part_of_current_line / consume_initial_space_on_current_line without a current line '
                      '(documented pre-condition has_current_line)'),
             entry='ParseSource(s).<operations>'))
-    for ops in (('line', 'consume'), ('consume', 'line')):
-        obs.append(Ob(
-            name='K1:copy:' + '+'.join(ops), fn='k1_parse_source',
-            case=dict(ops=ops, maxlen=len2, via_copy=True), kernel='K1',
-            bound='every text of <= %d characters over {a, space, newline}; %s on ParseSource.copy, original unchanged, '
-                  'then catch_up_with' % (len2, ' then '.join(ops)),
-            timeout=300 if tier == 'quick' else 3000, real=REAL_K1, entry='ParseSource(s).copy'))
+
+    for ops, maxlen in seqs:
+        name = 'K1:' + '+'.join(ops)
+        expensive = 'consume' in ops and len(ops) > 1
+        if not expensive:
+            add(name, ops, maxlen)
+        else:
+            # partition: shorter texts | texts of full length by first character
+            add(name + ':shorter', ops, maxlen - 1)
+            for ch in K1_ALPHABET:
+                add(name + ':first=%r' % ch, ops, maxlen, prefix=ch, exact=True)
     obs.append(Ob(name='K1:seeded-oracle-error', fn='k1_parse_source',
                   case=dict(ops=('consume',), maxlen=3, oracle_bug=True), kernel='K1',
                   bound='seeded oracle error: line number not advanced at column 0', timeout=300,
@@ -190,7 +215,7 @@ K2_ALPHABET = '[]a -#\t/'
 
 def _pre_k2(t: str) -> bool:
     c = ob.case()
-    return len(t) == c['n'] and _in_alphabet(t, K2_ALPHABET)
+    return len(t) == c['n'] and _in_alphabet(t, c.get('alphabet', K2_ALPHABET))
 
 
 def k2_line_syntax(t: str) -> bool:
@@ -253,19 +278,34 @@ def _k2_partition(total_len: int) -> List[str]:
     return sorted(out)
 
 
+K2_HEADER_ALPHABET = '[]a -'
+_K2_NAMES = {'[': '[', ']': ']', 'a': 'a', ' ': 'space', '-': '-', '#': '#', '\t': 'tab', '/': '/'}
+
+
 def _k2_obligations(tier: str) -> List[Ob]:
     maxlen = 4 if tier == 'quick' else 6
     obs = []
+
+    def add(total, prefix, alphabet):
+        n = total - len(prefix)
+        reduced = alphabet != K2_ALPHABET
+        obs.append(Ob(
+            name='K2:len%d:%r%s' % (total, prefix, ':header-alphabet' if reduced else ''), fn='k2_line_syntax',
+            case=dict(prefix=prefix, n=n, alphabet=alphabet), kernel='K2',
+            bound='every line that consists of %r followed by exactly %d characters of {%s}'
+                  % (prefix, n, ', '.join(_K2_NAMES[ch] for ch in alphabet)),
+            timeout=900, real=REAL_K2,
+            outside=('word characters other than ASCII letters (the regex \\w is Unicode aware; the alphabet has one letter)',),
+            entry='syntax.is_*_line / extract_section_name_from_section_line'))
+
     for total in range(0, maxlen + 1):
         for prefix in _k2_partition(total):
-            n = total - len(prefix)
-            obs.append(Ob(
-                name='K2:len%d:%r' % (total, prefix), fn='k2_line_syntax', case=dict(prefix=prefix, n=n), kernel='K2',
-                bound='every line of exactly %d characters over {[, ], a, space, -, #, tab, /} that begins with %r '
-                      '(the prefixes of the obligations partition all lines of <= %d characters)' % (total, prefix, maxlen),
-                timeout=900, real=REAL_K2,
-                outside=('word characters other than ASCII letters (the regex \\w is Unicode aware; the alphabet has one letter)',),
-                entry='syntax.is_*_line / extract_section_name_from_section_line'))
+            if tier == 'quick' and total == 4 and prefix == '[':
+                # the expensive part of length 4 (regex back-tracking over the name): quick tier takes the
+                # characters that matter inside a header; the thorough tier takes the full alphabet
+                add(total, prefix, K2_HEADER_ALPHABET)
+            else:
+                add(total, prefix, K2_ALPHABET)
     obs.append(Ob(name='K2:seeded-oracle-error', fn='k2_line_syntax', case=dict(prefix='[', n=3, oracle_bug=True),
                   kernel='K2', bound='seeded oracle error: `[a ]` accepted', timeout=300, expect=ob.REFUTE, real=REAL_K2))
     return obs
@@ -388,7 +428,7 @@ def _k3_parser():
 
 def _pre_k3(t: str) -> bool:
     c = ob.case()
-    return len(t) == c['n'] and _in_alphabet(t, K3_ALPHABET)
+    return len(t) == c['n'] and _in_alphabet(t, c.get('alphabet', K3_ALPHABET))
 
 
 def _k3_location_ok(sli, path, first_line: int, lines) -> bool:
@@ -464,24 +504,41 @@ def k3_document(t: str) -> bool:
     return ob.post(good)
 
 
+K3_HEADER_ALPHABET = ']ab\n'
+_K3_NAMES = {'[': '[', ']': ']', 'a': 'a', 'b': 'b', ' ': 'space', '#': '#', '\n': 'newline'}
+
+
 def _k3_obligations(tier: str) -> List[Ob]:
     maxlen = 4 if tier == 'quick' else 5
-    split_from = 4
     obs = []
+
+    def add(total, prefix, alphabet=K3_ALPHABET, timeout=900):
+        reduced = alphabet != K3_ALPHABET
+        obs.append(Ob(
+            name='K3:len%d:%r%s' % (total, prefix, ':header-alphabet' if reduced else ''), fn='k3_document',
+            case=dict(prefix=prefix, n=total - len(prefix), alphabet=alphabet), kernel='K3',
+            bound='every document text that consists of %r followed by exactly %d characters of {%s}; '
+                  'sections a, b; default section a; every element (also comment and blank runs) and every error compared '
+                  'with the reference line reader: type, line number, lines, file, empty inclusion chain'
+                  % (prefix, total - len(prefix), ', '.join(_K3_NAMES[ch] for ch in alphabet)),
+            timeout=timeout, real=REAL_K3, stubs=(STUB_ONE_LINE,),
+            outside=('instructions that span several lines, descriptions, inclusion (K4)',),
+            entry='DocumentParserForSectionsConfiguration.parse_source'))
+
     for total in range(0, maxlen + 1):
-        prefixes = [''] if total < split_from else list(K3_ALPHABET)
-        if total >= 5:
-            prefixes = [a + b for a in K3_ALPHABET for b in K3_ALPHABET]
-        for prefix in prefixes:
-            obs.append(Ob(
-                name='K3:len%d:%r' % (total, prefix), fn='k3_document', case=dict(prefix=prefix, n=total - len(prefix)),
-                kernel='K3',
-                bound='every document text of exactly %d characters over {[, ], a, b, newline, #, space} that begins with %r '
-                      '(the prefixes partition all texts of <= %d characters); sections a, b; default section a'
-                      % (total, prefix, maxlen),
-                timeout=900 if tier == 'quick' else 2400, real=REAL_K3, stubs=(STUB_ONE_LINE,),
-                outside=('instructions that span several lines, descriptions, inclusion (K4)',),
-                entry='DocumentParserForSectionsConfiguration.parse_source'))
+        if total < 4:
+            # len2 is the cheapest non-trivial obligation: it becomes the reachability twin
+            add(total, '', timeout=890 if total == 2 else 900)
+        elif total == 4:
+            for ch in K3_ALPHABET:
+                if tier == 'quick' and ch == '[':
+                    add(total, ch, K3_HEADER_ALPHABET)
+                else:
+                    add(total, ch)
+        else:
+            for a in K3_ALPHABET:
+                for b in K3_ALPHABET:
+                    add(total, a + b, timeout=2400)
     obs.append(Ob(name='K3:seeded-oracle-error', fn='k3_document', case=dict(prefix='', n=2, oracle_bug=True), kernel='K3',
                   bound='seeded oracle error: a comment line is an instruction', timeout=300, expect=ob.REFUTE,
                   real=REAL_K3, stubs=(STUB_ONE_LINE,)))
@@ -656,8 +713,9 @@ def _k4_obligations(tier: str) -> List[Ob]:
     for i, chunk in enumerate(chunks):
         obs.append(_k4_case_ob('K4:A:2-lines:%d' % i, {R: [chunk, K4_ALL]}))
     if not thorough:
+        second = ('setup', 'act', 'unknown', 'comment', 'blank', 'i', 'm', 'eof', 'di', 'dclose', 'src', 'inc:missing')
         for i, chunk in enumerate(chunks):
-            obs.append(_k4_case_ob('K4:A:setup+2-lines:%d' % i, {R: ['setup', chunk, K4_ALL]}))
+            obs.append(_k4_case_ob('K4:A:setup+2-lines:%d' % i, {R: ['setup', chunk, second]}))
     else:
         obs.append(_k4_case_ob('K4:A:1-lines:no-final-newline', {R: [K4_ALL]}, nl=False))
         for i, chunk in enumerate(chunks):
@@ -667,6 +725,10 @@ def _k4_obligations(tier: str) -> List[Ob]:
             obs.append(_k4_case_ob('K4:A:3-lines:%s' % first, {R: [first, K4_ALL, K4_ALL]}))
         for second in K4_ALL:
             obs.append(_k4_case_ob('K4:A:setup+3-lines:%s' % second, {R: ['setup', second, K4_ALL, K4_ALL]}))
+    x = ('comment', 'blank', 'i', 'dclose', 'eof', 'assert')
+    obs.append(_k4_case_ob('K4:A:description', {R: ['setup', ('d', 'dopen', 'di'), x, x]}))
+    y = ('src', 'eof', 'assert', 'i', 'blank', 'comment')
+    obs.append(_k4_case_ob('K4:A:multi-line', {R: ['setup', 'm', y, y]}))
     obs.append(_k4_case_ob('K4:A:seeded-oracle-error', {R: [('comment', 'src'), ('comment', 'src')]},
                            oracle_bug='act-comment-dropped'))
 
@@ -732,6 +794,117 @@ def _k4_obligations(tier: str) -> List[Ob]:
     return obs
 
 
+# =========================================================================== K6  instruction element, characters symbolic
+
+K6_ALPHABET = '`i x\n#'
+K6_ALPHABET_FF = K6_ALPHABET + '\f'
+K6_HEAD = '[setup]\n'
+_K6_NAMES = {'`': 'back-tick', 'i': 'i', ' ': 'space', 'x': 'x', '\n': 'newline', '#': '#', '\f': 'form-feed'}
+REGION_WS_LAST_LINE = 'C07-ws-only-last-line'
+
+
+def _is_odd_space_line(line: str) -> bool:
+    """consists of white space only, but is not an empty line of the file syntax (space and tab only)"""
+    return line.strip() == '' and not ref.is_empty_line(line)
+
+
+def _has_odd_space_line(text: str) -> bool:
+    for line in text.split('\n'):
+        if _is_odd_space_line(line):
+            return True
+    return False
+
+
+def _in_region_ws_last_line(text: str) -> bool:
+    """known finding: the last line of the file is not ended by a newline and consists of white space only, among it a
+    white-space character other than space and tab, and a new element of an instruction phase begins on that line
+    (= the text before it is a complete, error-free document)"""
+    last = text.split('\n')[-1]
+    if not _is_odd_space_line(last):
+        return False
+    before = text[:len(text) - len(last)]
+    if _has_odd_space_line(before):
+        return True  # over-approximation: not analysed further
+    try:
+        ref.read_test_case({_k4.ROOT: before}, _k4.ROOT, 'ROOT')
+    except ref.DocError:
+        return False
+    return True
+
+
+def _pre_k6(t: str) -> bool:
+    c = ob.case()
+    if not (len(t) == c['n'] and _in_alphabet(t, c.get('alphabet', K6_ALPHABET))):
+        return False
+    if c.get('need_ff') and '\f' not in t:
+        return False
+    if ob.excluded(REGION_WS_LAST_LINE) and _in_region_ws_last_line(K6_HEAD + c['prefix'] + t):
+        return False
+    return True
+
+
+def k6_instruction_element(t: str) -> bool:
+    """
+    pre: _pre_k6(t)
+    post: _
+    """
+    c = ob.case()
+    text = K6_HEAD + c['prefix'] + t
+    texts = {_k4.ROOT: text}
+    d = _k4.write_files({})
+    # any exception other than the two documented error reports propagates: the obligation fails
+    real = _k4.real_outcome(d, text)
+    if _has_odd_space_line(text):
+        # lines of white space other than space and tab are not defined by the file syntax: only
+        # `no exception of an undocumented class` is claimed
+        return ob.post(real[0] in ('ok', 'syntax', 'file-access'))
+    exp = _k4.expected_outcome(texts, d, c.get('oracle_bug'))
+    if c.get('oracle_bug') == 'description-is-instruction-text' and exp[0] == 'ok':
+        exp = ('ok', {ph: [e[:5] + (None,) + e[6:] for e in els] for ph, els in exp[1].items()}, None, None)
+    return ob.post(_k4.outcomes_agree(real, exp))
+
+
+def _k6_obligations(tier: str) -> List[Ob]:
+    maxlen = 3 if tier == 'quick' else 5
+    obs = []
+
+    def add(total, prefix, timeout=900, ff=False):
+        alphabet = K6_ALPHABET_FF if ff else K6_ALPHABET
+        what = ('elements and errors as read by the reference reader (description, blank / comment lines before the '
+                'instruction, instruction name and argument, line numbers, texts)')
+        if ff:
+            what = ('at least one form-feed in the text; texts with a line that consists of white space other than space and '
+                    'tab: no exception of an undocumented class; other texts: ' + what)
+        obs.append(Ob(
+            name=('K6:form-feed:len%d' % total) if ff else 'K6:len%d:%r' % (total, prefix), fn='k6_instruction_element',
+            case=dict(prefix=prefix, n=total - len(prefix), alphabet=alphabet, need_ff=ff), kernel='K6',
+            bound='every test-case text `[setup]` newline %r followed by exactly %d characters of {%s}: %s'
+                  % (prefix, total - len(prefix), ', '.join(_K6_NAMES[ch] for ch in alphabet), what),
+            timeout=timeout, real=REAL_K4, stubs=(_k4.STUB_INSTRUCTIONS,),
+            outside=('the meaning of lines that consist of white space other than space and tab (only the absence of '
+                     'undocumented exceptions is claimed for texts that have one)',),
+            entry='processors._Parser(parsing_setup).apply(TestCaseFileReference(file), text)'))
+
+    for total in range(0, maxlen + 1):
+        if total < 3:
+            add(total, '', timeout=890 if total == 2 else 900)
+        elif total == 3:
+            for ch in K6_ALPHABET:
+                add(total, ch)
+        else:
+            for a in K6_ALPHABET:
+                for b in K6_ALPHABET:
+                    add(total, a + b, timeout=2400 if total > 4 else 900)
+    # (length 1 is the single text form-feed, which lies in the region of the known finding)
+    for total in range(2, (3 if tier == 'quick' else 4) + 1):
+        add(total, '', ff=True, timeout=1200)
+    obs.append(Ob(name='K6:seeded-oracle-error', fn='k6_instruction_element',
+                  case=dict(prefix='`', n=3, alphabet='`i x', oracle_bug='description-is-instruction-text'), kernel='K6',
+                  bound='seeded oracle error: a description is not recorded', timeout=300, expect=ob.REFUTE,
+                  real=REAL_K4, stubs=(_k4.STUB_INSTRUCTIONS,)))
+    return obs
+
+
 # =========================================================================== registry
 
 def obligations(tier: str) -> List[Ob]:
@@ -741,6 +914,7 @@ def obligations(tier: str) -> List[Ob]:
     obs += _k5_obligations(tier)
     obs += _k3_obligations(tier)
     obs += _k4_obligations(tier)
+    obs += _k6_obligations(tier)
     return obs
 
 
@@ -752,17 +926,20 @@ def _enumerate_inputs(o: Ob, budget: int):
     c = o.case
     if o.fn == 'k1_parse_source':
         ml = min(c['maxlen'], 3)
-        texts = [''.join(t) for n in range(ml + 1) for t in itertools.product(K1_ALPHABET, repeat=n)]
+        tl = ml - len(c.get('prefix', ''))
+        texts = [''.join(t) for n in range(tl + 1) for t in itertools.product(K1_ALPHABET, repeat=n)]
         rng = range(0, ml + 3)
         n1s = rng if c['ops'][0] in ('consume', 'part') else [0]
         n2s = rng if len(c['ops']) > 1 and c['ops'][1] in ('consume', 'part') else [0]
         return ((t, a, b) for t in texts for a in n1s for b in n2s)
     if o.fn == 'k2_line_syntax':
-        return ((''.join(t),) for t in itertools.product(K2_ALPHABET, repeat=min(c['n'], 4)) if len(t) == c['n'])
+        return ((''.join(t),) for t in itertools.product(c.get('alphabet', K2_ALPHABET), repeat=c['n']))
     if o.fn == 'k3_document':
-        return ((''.join(t),) for t in itertools.product(K3_ALPHABET, repeat=c['n']))
+        return ((''.join(t),) for t in itertools.product(c.get('alphabet', K3_ALPHABET), repeat=c['n']))
     if o.fn == 'k5_act_unescape':
         return ((''.join(t),) for n in range(c['maxlen'] + 1) for t in itertools.product(K5_ALPHABET, repeat=n))
+    if o.fn == 'k6_instruction_element':
+        return ((''.join(t),) for t in itertools.product(c.get('alphabet', K6_ALPHABET), repeat=c['n']))
     if o.fn in ('k4_test_case', 'k4_permutation'):
         sizes = [len(alts) for (_, _, alts) in _k4.slots_of(c)]
         if c.get('perms'):
@@ -785,7 +962,8 @@ def selftest(tier: str) -> int:
         ob.set_context(o.case, (), False)
         fn = getattr(mod, o.fn)
         pre = {'k1_parse_source': _pre_k1, 'k2_line_syntax': _pre_k2, 'k3_document': _pre_k3,
-               'k5_act_unescape': _pre_k5, 'k4_test_case': _pre_k4, 'k4_permutation': _pre_k4}[o.fn]
+               'k5_act_unescape': _pre_k5, 'k4_test_case': _pre_k4, 'k4_permutation': _pre_k4,
+               'k6_instruction_element': _pre_k6}[o.fn]
         witnessed = False
         for args in itertools.islice(_enumerate_inputs(o, per_ob), per_ob):
             if not pre(*args):
